@@ -571,22 +571,66 @@ def observe_listans(cls, la, L):
 
 
 # ---------------------------------------------------------------- ListGrader groupings
-def lg_config(c, L):
+def lg_subgraders(c, L):
     def sub(kind):
         return L['StringGrader']() if kind == 'item' else L['ListGrader'](subgraders=L['StringGrader']())
-    subs = c['subs']
-    cfg = {'ordered': bool(c['ordered']), 'subgraders': sub(subs[0]) if c['one'] else [sub(k) for k in subs]}
+    return sub(c['subs'][0]) if c['one'] else [sub(k) for k in c['subs']]
 
-    def alist(t):
-        out = []
-        for i in range(c['nans']):
-            kind = subs[0] if c['one'] else (subs[i] if i < len(subs) else 'item')
-            out.append('a%d%d' % (t, i) if kind == 'item' else ['p%d%d' % (t, i), 'q%d%d' % (t, i)])
-        return out
-    cfg['answers'] = alist(0) if c['ntup'] == 0 else tuple(alist(t) for t in range(c['ntup']))
+
+def lg_alist(c, n, t):
+    """a list of n answers, each shaped for the subgrader it is paired with"""
+    subs = c['subs']
+    out = []
+    for i in range(n):
+        kind = subs[0] if c['one'] else (subs[i] if i < len(subs) else 'item')
+        out.append('a%s%d' % (t, i) if kind == 'item' else ['p%s%d' % (t, i), 'q%s%d' % (t, i)])
+    return out
+
+
+def lg_config(c, L):
+    cfg = {'ordered': bool(c['ordered']), 'subgraders': lg_subgraders(c, L)}
+    cfg['answers'] = lg_alist(c, c['nans'], 0) if c['ntup'] == 0 else tuple(lg_alist(c, c['nans'], t) for t in range(c['ntup']))
     if c['grouping']:
         cfg['grouping'] = list(c['grouping'])
     return cfg
+
+
+def lnest_build(c, L, kw):
+    """outer ListGrader around an inner ListGrader that gets its answers from the outer one"""
+    inner = c['inner']
+    icfg = {'subgraders': lg_subgraders(inner, L)}
+    if inner['ordered']:
+        icfg['ordered'] = True            # unordered: left at its default
+    if inner['grouping']:
+        icfg['grouping'] = list(inner['grouping'])
+    ig = L['ListGrader'](**icfg) if kw else L['ListGrader'](icfg)
+    m = len(inner['grouping']) if inner['grouping'] else c['nin']
+    if c['oform'] == 'single':
+        ocfg = {'subgraders': ig, 'answers': [lg_alist(inner, c['nin'], 'g%d' % g) for g in range(c['ngroups'])],
+                'grouping': [g + 1 for g in range(c['ngroups']) for _ in range(m)]}
+    else:
+        ocfg = {'subgraders': [ig, L['StringGrader']()], 'answers': [lg_alist(inner, c['nin'], 'g0'), 'z'],
+                'grouping': [1] * m + [2]}
+    ocfg['ordered'] = bool(c['oordered'])
+    return L['ListGrader'](**ocfg) if kw else L['ListGrader'](ocfg)
+
+
+def observe_lnest(c, L):
+    s1, e1, o1 = attempt(lambda: lnest_build(c, L, False), L)
+    s2, e2, o2 = attempt(lambda: lnest_build(c, L, True), L)
+    obs = {'status': s1, 'exc': e1, 'status_kw': s2, 'exc_kw': e2, 'canon_ok': True, 'kwargs_equal': s1 == s2,
+           'idempotent': True, 'detail': ''}
+    if s1 == 'accept':
+        if not (isinstance(o1.config['answers'], tuple) and all(isinstance(x, list) for x in o1.config['answers'])):
+            obs['canon_ok'] = False
+            obs['detail'] = 'answers is not a tuple of lists'
+        if s2 == 'accept':
+            obs['kwargs_equal'] = deq(o1.config, o2.config)
+        facts = check_object('ListGrader', o1, L)
+        obs['idempotent'] = facts['idempotent'] is not False
+        if not obs['idempotent']:
+            obs['detail'] = facts.get('idem_detail')
+    return obs
 
 
 def lg_canonical(c, answers):
@@ -800,6 +844,11 @@ def replay_states(states, extra):
             probs = judge_simple(expect, obs, 'listgrader')
             case = {'part': kind, 'case': {k: c[k] for k in ('ordered', 'subs', 'one', 'grouping', 'nans', 'ntup')}}
             res['keys'].add((kind, expect, c['one'], c['ordered'], len(c['grouping']) > 0))
+        elif kind == 'lnest':
+            obs = observe_lnest(c, L)
+            probs = judge_simple(expect, obs, 'nested-listgrader')
+            case = {'part': kind, 'case': {k: c[k] for k in ('inner', 'nin', 'oform', 'oordered', 'ngroups')}}
+            res['keys'].add((kind, expect, c['oform'], c['inner']['one'], c['inner']['ordered'], len(c['inner']['grouping']) > 0))
         elif kind == 'nested':
             obs = observe_nested(c['chain'], L)
             probs = judge_simple(expect, obs, 'nested-delimiters')
@@ -957,6 +1006,14 @@ def rand_records(rng, n, table):
             nans = rng.choice([0, 1, 2, 3, 4, len(subs), len(subs), len(set(grouping)) or 2])
             recs.append({'id': i, 'ev': 'lgroup', 'ordered': rng.random() < .6, 'subs': subs, 'one': one, 'grouping': grouping,
                          'nans': nans, 'ntup': rng.choice([0, 0, 1, 2, 3])})
+        elif r < .915:
+            one = rng.random() < .4
+            subs = [rng.choice(['item', 'item', 'list']) for _ in range(1 if one else rng.randint(2, 4))]
+            ng = rng.randint(1, 3)
+            grouping = [] if rng.random() < .5 else [rng.randint(1, ng) for _ in range(rng.randint(1, 5))]
+            recs.append({'id': i, 'ev': 'lnest', 'inner': {'ordered': rng.random() < .5, 'subs': subs, 'one': one, 'grouping': grouping},
+                         'nin': rng.choice([1, 2, 3, 4, len(subs), len(subs)]), 'oform': rng.choice(['single', 'pair']),
+                         'oordered': rng.random() < .6, 'ngroups': rng.randint(2, 4)})
         elif r < .93:
             form = rng.choice(['string', 'list'])
             syms = ['lsq', 'lpar', 'lcub', 'rsq', 'rpar', 'rcub'] + (['two'] if form == 'list' else [])
@@ -1009,7 +1066,8 @@ def observe_chunk(recs, extra):
             r.update(status=o['status'], status_kw=o['status_kw'], exc=o['exc'] or o['exc_kw'] or '', canon=o['canon'],
                      canon_ok=o['canon_ok'], kwargs_equal=o['kwargs_equal'], idempotent=o['idempotent'])
         else:
-            o = observe_lg(r, L) if ev == 'lgroup' else observe_nested(r['chain'], L) if ev == 'nested' \
+            o = observe_lg(r, L) if ev == 'lgroup' else observe_lnest(r, L) if ev == 'lnest' \
+                else observe_nested(r['chain'], L) if ev == 'nested' \
                 else observe_interval(r, L) if ev == 'interval' else observe_square(r, L)
             r.update(status=o['status'], status_kw=o['status_kw'], exc=o['exc'] or o['exc_kw'] or '', canon_ok=o['canon_ok'],
                      kwargs_equal=o['kwargs_equal'], idempotent=o['idempotent'])
@@ -1030,7 +1088,8 @@ def report_trace(ctx, r, clause):
     head = clause.split(':')[0]
     klass = refine(CLAUSE_CLASS.get(head) or 'non-config-exception:%s' % r.get('exc'), r)
     case = {k: r[k] for k in r if k in ('cls', 'cfg', 'ctx', 'ans', 'la', 'chain', 'ordered', 'subs', 'one', 'grouping', 'nans', 'ntup',
-                                        'form', 'open', 'close', 'nbounds', 'curly', 'wrap', 'sub',
+                                        'form', 'open', 'close', 'nbounds', 'curly', 'wrap', 'sub', 'inner', 'nin', 'oform',
+                                        'oordered', 'ngroups',
                                         'symmetry', 'traceless', 'determinant', 'complex', 'dimension')}
     sig = {'part': 'trace:' + r['ev']}
     sig.update(case)
@@ -1041,7 +1100,7 @@ def report_trace(ctx, r, clause):
 
 
 # ---------------------------------------------------------------- driver
-PARTS = ['single', 'mathx', 'answers', 'listans', 'lgroup', 'nested', 'interval', 'square']
+PARTS = ['single', 'mathx', 'answers', 'listans', 'lgroup', 'lnest', 'nested', 'interval', 'square']
 DOC_CONFLICTS = [
     'SumGrader.samples: docstring "default changed to 2", docs/grading_math/sum_grader.md "default 1"',
     'SumGrader.infty_val_fact: docs/grading_math/sum_grader.md spells it inftY_val_fact',
@@ -1171,7 +1230,7 @@ def replay(ctx, rec):
         obs = observe_listans(sig['cls'], sig.get('la') or sig['ans'], L)
     else:
         case = sig.get('case') or sig
-        obs = observe_lg(case, L) if part == 'lgroup' else observe_nested(sig.get('chain') or case['chain'], L) if part == 'nested' \
+        obs = observe_lg(case, L) if part == 'lgroup' else observe_lnest(case, L) if part == 'lnest' else observe_nested(sig.get('chain') or case['chain'], L) if part == 'nested' \
             else observe_interval(case, L) if part == 'interval' else observe_square(case, L)
     print('now     :', {k: obs[k] for k in ('status', 'exc', 'status_kw', 'exc_kw', 'canon_ok', 'kwargs_equal', 'idempotent', 'detail')
                        if k in obs})
